@@ -80,6 +80,18 @@ def run(chk, replay=None):
                 and all(d["mass"] > 0 for n_, d in spec["particles"].items() if n_.startswith("f")):
             cases.append((("synth", spec), ["none"]))
             break
+    # an initial state of spin 2: five projections summed incoherently (the projections -1 and -2 are different groups)
+    tries = 0
+    while tries < 5000:
+        tries += 1
+        spec = U.synth_spec(rng, nfs=3, formalism="helicity", helset="full", maxspin2=4, ntop=1)
+        if spec is None or len(spec["transitions"]) > 40 or spec["particles"]["A"]["spin2"] != 4:
+            continue
+        # (spinless final states and a resonance with spin: every outer state carries its complete set of projections)
+        if all(d["mass"] > 0 and d["spin2"] == 0 for n_, d in spec["particles"].items() if n_.startswith("f")) \
+                and any(d["spin2"] >= 2 for n_, d in spec["particles"].items() if n_.startswith("R")):
+            cases.append((("synth", spec), ["none"]))
+            break
     jobs, meta = [], []
     for spec, als in cases:
         reaction = observe.load(spec)
